@@ -11,10 +11,20 @@ uint64_t vh_next(const char *kind)
         return 0;
     return vh_vals[vh_pos++];
 }
+#include <unistd.h>
+#include <sys/syscall.h>
+static void raw(const char *s) { size_t n = 0; while (s[n]) ++n; syscall(SYS_write, 1, s, n); }
+void vh_report(const char *kind, const char *msg, const char *file, int line)
+{
+    char num[16]; int i = 14; num[15] = 0;
+    if (line == 0) num[i--] = '0';
+    while (line > 0 && i >= 0) { num[i--] = (char)('0' + line % 10); line /= 10; }
+    raw(kind); raw(" "); raw(msg); raw(" ("); raw(file); raw(":"); raw(num + i + 1); raw(")\n");
+}
 int main(void)
 {
     harness();
-    if (vh_failed) { printf("REPLAY-RESULT reproduced\n"); return 1; }
-    printf("REPLAY-RESULT clean (consumed %zu of %zu values)\n", vh_pos, (size_t)vh_nvals);
-    return 0;
+    if (vh_failed) { raw("REPLAY-RESULT reproduced\n"); _Exit(101); }
+    raw("REPLAY-RESULT clean\n");
+    _Exit(0);
 }
